@@ -116,7 +116,7 @@ func newC07Rig(c *ctx, hc c07HdrCfg, extra []string) (*c07Rig, error) {
 	var lines []string
 	k := 0
 	for _, strip := range []string{"", "/s", "/s/t"} {
-		for _, pre := range []string{"", "/p"} {
+		for _, pre := range []string{"", "/p", "/caf\u00e9"} { // the last one: plain text that has to be escaped in a request target
 			for _, ho := range []string{"", "dst", "custom.example"} {
 				for _, tq := range []string{"", "tq=1&tz=2"} {
 					rt := c07Route{Host: fmt.Sprintf("r%d.test", k), Strip: strip, Prepend: pre, HostOpt: ho, TQuery: tq}
@@ -209,7 +209,14 @@ func genC07(r *rand.Rand, rg *c07Rig, id string, thorough bool) *c07Req {
 	q.Method = choose(r, []string{"GET", "GET", "GET", "HEAD", "POST", "POST", "PUT", "PATCH", "DELETE", "OPTIONS", "PURGE"})
 	var p strings.Builder
 	if q.Route >= 0 && rg.routes[q.Route].Strip != "" && r.Intn(6) > 0 {
-		p.WriteString(rg.routes[q.Route].Strip)
+		sp := rg.routes[q.Route].Strip
+		if r.Intn(5) == 0 {
+			// the client spells a letter of the prefix as an escape (like %7E for '~'): the same path, and what follows the
+			// prefix keeps its encoding
+			i := 1 + 2*r.Intn(len(sp)/2)
+			sp = sp[:i] + fmt.Sprintf("%%%02X", sp[i]) + sp[i+1:]
+		}
+		p.WriteString(sp)
 		if r.Intn(8) == 0 {
 			// what follows the stripped prefix starts with a slash the client has encoded: it is data, and the path the
 			// upstream gets must still be an absolute one
@@ -438,7 +445,7 @@ func (q *c07Req) sent(name string) []string {
 func c07Wire(c *ctx, which string) {
 	c.R.Rule = "the real fabio binary (plain, TLS and IPv6 listeners, routes for every strip/prepend/host/target-query combination delivered through the fake Consul KV) between raw-socket clients and a socket-level recording upstream: generated methods, raw paths with percent-encoded segments, queries, 0-16 headers incl. repeated and forged managed ones, bodies 0B-1MiB by Content-Length or chunked; scripted upstream answers (status 200-599, headers, length/chunked/close framing, trailers). "
 	if which == "c20" {
-		c.R.Rule = "[c20-wire] the real binary (same HTTP rig as c07-wire: 36 routes, raw-socket clients, scripted upstream answers incl. 1xx informational responses, chunked/length/close framing, HEAD, large bodies) with -log.access.target stdout and a format of 12 fields, fabio's TZ set far from UTC: exactly one line per completed proxied request; status, payload size, method and service equal what the client saw on the wire; the time fields are UTC, agree with each other and lie between the sending of the request and the reading of the log on the harness clock. evaluations = logged requests compared; non-trivial = request with a non-200 status or a body"
+		c.R.Rule = "[c20-wire] the real binary (same HTTP rig as c07-wire: 54 routes, raw-socket clients, scripted upstream answers incl. 1xx informational responses, chunked/length/close framing, HEAD, large bodies) with -log.access.target stdout and a format of 12 fields, fabio's TZ set far from UTC: exactly one line per completed proxied request; status, payload size, method and service equal what the client saw on the wire; the time fields are UTC, agree with each other and lie between the sending of the request and the reading of the log on the harness clock. evaluations = logged requests compared; non-trivial = request with a non-200 status or a body"
 	}
 	if which == "c20" {
 	} else if which == "c07" {
@@ -611,13 +618,21 @@ func c07One(c *ctx, which string, rg *c07Rig, q *c07Req, unrouted *atomic.Int64)
 	if which == "c07" && q.Route >= 0 {
 		rt := rg.routes[q.Route]
 		path := q.RawPath
-		if rt.Strip != "" && strings.HasPrefix(path, rt.Strip) {
-			path = path[len(rt.Strip):]
+		if dec, err := url.PathUnescape(path); rt.Strip != "" && err == nil && strings.HasPrefix(dec, rt.Strip) {
+			// as much of the encoded path as decodes to the prefix goes, the rest stays as the client wrote it
+			n := len(rt.Strip)
+			for ; n > 0 && path != ""; n-- {
+				if path[0] == '%' && len(path) >= 3 {
+					path = path[3:]
+				} else {
+					path = path[1:]
+				}
+			}
 			if !strings.HasPrefix(path, "/") {
 				path = "/" + path
 			}
 		}
-		path = rt.Prepend + path
+		path = (&url.URL{Path: rt.Prepend}).EscapedPath() + path
 		query := q.Query
 		if rt.TQuery != "" && query != "" {
 			query = rt.TQuery + "&" + query
